@@ -81,6 +81,9 @@ func goTyX(e ast.Expr) gty {
 		}
 		return gty("func:" + strings.Join(ps, ",") + "->" + strings.Join(rs, ","))
 	case *ast.StarExpr:
+		if id, ok := x.X.(*ast.Ident); ok && id.Name == "testError" && ckMode {
+			return "errv" // the model's Option Err
+		}
 		if id, ok := x.X.(*ast.Ident); ok && id.Name == "testError" && emMode {
 			return "errc" // what findBug looks at in an error: nil, invalid data, anything else
 		}
@@ -106,6 +109,10 @@ func leanTyX(t gty) string {
 		return "String"
 	case s == "errc":
 		return "Go.ErrC"
+	case s == "errv":
+		return "Go.ErrV"
+	case s == "sspec":
+		return "Go.SSpec"
 	case s == "unit":
 		return "Unit"
 	case knownStructs[s] != nil:
@@ -167,6 +174,8 @@ type imp struct {
 	st       bool                // stream mode (repeat.more): Go.StM — begin/endGroup, drawBits and flipBiasedCoin are requests
 	stream   string              // stream mode: the name of the bit stream parameter
 	em       bool                // engine mode (findBug): Go.EM — a script mode with the requests init / checkOnce / early
+	ck       bool                // check mode (doCheck, checkFailFile): Go.CM
+	ckSt     *ckState
 	sm       bool                // script mode (shrink.go's shrinker): reads of s.rec / s.shrinks and s.accept are effects (Go.SM)
 }
 
@@ -450,6 +459,11 @@ func (m *imp) hoistCalls(e ast.Expr) []string {
 
 // expr: the pure part (index/slice expressions have been hoisted)
 func (m *imp) expr(e ast.Expr, want gty) (string, gty) {
+	if m.ck {
+		if s, ty, ok := m.ckExpr(e, want); ok {
+			return s, ty
+		}
+	}
 	if bytesMode {
 		if s, ty, ok := m.bytesExpr(e, want); ok {
 			return s, ty
@@ -1019,6 +1033,11 @@ func (m *imp) block(list []ast.Stmt, c ictx) string {
 			return s
 		}
 	}
+	if m.ck {
+		if s, ok := m.ckStmt(list[0], rest); ok {
+			return s
+		}
+	}
 	switch s := list[0].(type) {
 	case *ast.ReturnStmt:
 		var pre []string
@@ -1042,7 +1061,7 @@ func (m *imp) block(list []ast.Stmt, c ictx) string {
 		var lets []string
 		for _, sp := range gd.Specs {
 			vs := sp.(*ast.ValueSpec)
-			if m.em {
+			if m.em && !m.ck {
 				// `var ( r = …; t = …; valid = 0 )`: integer counters are kept, the stream and the T are the oracle's
 				for i, n := range vs.Names {
 					if i < len(vs.Values) {
@@ -1762,7 +1781,16 @@ func (t *trans) impFunctionMode(key string, sigs map[string]*isig, sm bool, suff
 	fxMode = false
 	smMode = sm
 	defer func() { smMode = false; smPartial = nil }()
-	m := &imp{t: t, p: t.p, key: key + suffix, sigs: sigs, objs: map[string]string{}, callTmp: map[*ast.CallExpr]string{}, idxTmp: map[ast.Node]string{}, idxTy: map[ast.Node]gty{}, pureSigs: t.pureMethodFields, sm: sm, em: emMode, st: stMode}
+	if ckMode {
+		// a local named like a Lean keyword
+		ast.Inspect(d.Body, func(n ast.Node) bool {
+			if id, ok := n.(*ast.Ident); ok && id.Name == "matches" {
+				id.Name = "matches_"
+			}
+			return true
+		})
+	}
+	m := &imp{t: t, p: t.p, key: key + suffix, sigs: sigs, objs: map[string]string{}, callTmp: map[*ast.CallExpr]string{}, idxTmp: map[ast.Node]string{}, idxTy: map[ast.Node]gty{}, pureSigs: t.pureMethodFields, sm: sm, em: emMode, st: stMode, ck: ckMode}
 	smMonad = m.mon()
 	if sm {
 		smPartial = m.smEffect
